@@ -46,7 +46,7 @@ func (db *DB) CreateInBatches(value interface{}, batchSize int) (tx *DB) {
 
 				subtx := tx.getInstance()
 				subtx.Statement.Dest = reflectValue.Slice(i, ends).Interface()
-				subtx.callbacks.Create().Execute(subtx)
+				subtx = subtx.callbacks.Create().Execute(subtx)
 				if subtx.Error != nil {
 					return subtx.Error
 				}
